@@ -18,6 +18,15 @@ def run(ctx, H):
             l = list(members) + [ctx.rng.choice(members) for _ in range(ctx.rng.randint(0, 6))] if members else []
             ctx.rng.shuffle(l)
             lists.append(l)
+    # long lists: a kind that occurs only after many repetitions of others (fixed-size buffers, early exits)
+    for mask in range(1, 256):
+        members = [k for k in range(8) if mask >> k & 1]
+        if len(members) < 2 or (ctx.tier == "quick" and ctx.rng.random() < 0.5):
+            continue
+        ctx.rng.shuffle(members)
+        n = ctx.rng.choice([7, 8, 9, 15, 16, 17, 31, 32, 33, 64, 255, 256, 300])
+        lists.append([ctx.rng.choice(members[:-1]) for _ in range(n)] + [members[-1]])
+        lists.append([members[0]] + [ctx.rng.choice(members[1:]) for _ in range(n)])
     obs = C.run_harness(H.binary, [{"mode": "kinds", "kinds": l} for l in lists])
     # same subset must give the same phrase whatever the order (monitor on the implementation alone)
     by_set = {}
@@ -68,7 +77,7 @@ def run(ctx, H):
         "distinct_nontrivial": n_sweep - 1 + len({tuple(l) for l in lists if l}),
         "exhaustive": True,
         "rule": "every sequence of value kinds of length 0..5 (8^0+...+8^5 = %d, enumerated by the harness and independently by Coq in the "
-                "same canonical order) plus %d shuffled lists with repeats covering all 256 subsets; non-trivial = non-empty sequence" % (n_sweep, len(lists)),
+                "same canonical order) plus %d shuffled lists with repeats covering all 256 subsets, among them long lists (7..300 entries) where one kind occurs only last or only first; non-trivial = non-empty sequence" % (n_sweep, len(lists)),
         "samples": [{"kinds": [names[k] for k in seq_at(1234)], "phrase": sweep["dict"][sweep["idx"][1234]]},
                     {"kinds": [names[k] for k in lists[-1]], "phrase": obs[-1]["phrase"]}],
         "distinct_phrases": len(sweep["dict"]),
